@@ -67,7 +67,7 @@ def run(ctx):
   ctx.trusted = ["Coq 8.16.1 kernel + vm_compute", "hand-written model Model/PSDConv.v tied by this correspondence",
                  "oracles: numpy eigh / cholesky, scipy pinvh, sklearn make_spd_matrix / PCA / LDA (outputs certified per run)",
                  "exact LDL^T positive-definiteness certificate: sound by Proofs/Hom.cert_pd_sound (Q2R homomorphism + sum-of-squares)"]
-  ok = ctx.build_property()
+  ok = ctx.build_property(gen_needed=['Src_psd'])
   terms, recs = [], []
   # ---- 1. eigenvalue sign test, bit-exact
   N = 1500 if thorough else 250
